@@ -142,7 +142,7 @@ def judge_start(case, pred, r):
         viol.append((dict(kind="insecure-accepted", option=opt, layer=layer), where + " insecure: %s" % ins))
     if v["strict"] and v["tls"] == "off" and acc and r.get("grpc") == "listening":
         viol.append((dict(kind="insecure-accepted", option="network-without-tls", layer=layer), where + ": gRPC network is listening without TLS"))
-    if not v["strict"] and not unusable and not moved and not secret_flag and not acc:
+    if not v["strict"] and not unusable and not moved and not secret_flag and not acc and r["phase"] in ("flags", "load", "configure"):
         viol.append((dict(kind="refused-nonstrict", by=r.get("refused_by") or r.get("phase"), option=(ins[0] if len(ins) == 1 else "multiple" if ins else "none"), layer=layer,
                           form=v.get("form", "")),
                      where + ": %s" % r["err"][:200]))
@@ -274,6 +274,11 @@ def run(prop, tier, seed, replay=None):
     models.append(dict(cfg="Config.gen.cfg", states=g.distinct, transitions=g.generated, vectors=len(starts), actions=len(acts), wall_s=round(g.wall, 1)))
     preds = {vkey(p["v"]): p for p in starts}
     pacts = {akey(p["strict"], p["dummy"], p["act"]): p for p in acts}
+    # predictions of the prescriptive design: a tree in which a deviation has been repaired matches these
+    pacts_p = {akey(p["strict"], p["dummy"], p["act"]): p for p in m.printed if p["t"] == "act"}
+    preds_p = {vkey(p["v"]): p for p in m.printed if p["t"] == "start"}
+    if len(pacts_p) != len(pacts) or len(preds_p) != len(preds):
+        raise Inconclusive("prescriptive and descriptive model enumerate different case sets")
     for p in starts:   # the statement's notion of "insecure" as transcribed in the spec and as coded here must agree
         if bool(insecure_options(p["v"])) != bool(p["insecure"]):
             raise Inconclusive("spec and oracle disagree on InsecureSetting for %s" % p["v"])
@@ -373,16 +378,17 @@ def run(prop, tier, seed, replay=None):
     for v in chosen:
         if vkey(v) not in preds:
             raise Inconclusive("selected vector was not enumerated by TLC: %s" % v)
-        c = add("system", v, None)
-        c["vec"] = concrete_vec(v, rnd)
-        c["acts"] = system_acts(v, rnd, c["id"])
+        for _ in range(1 if quick else 2):     # thorough: two concretisations (URL variant, channels, actions) of every vector
+            c = add("system", v, None)
+            c["vec"] = concrete_vec(v, rnd)
+            c["acts"] = system_acts(v, rnd, c["id"])
     rnd.shuffle(cases)   # balance the shards
     results = execute(binary, [dict(id=c["id"], layer=c["layer"], vec=c["vec"], acts=c["acts"]) for c in cases], seed)
     if len(results) != len(cases):
         raise Inconclusive("driver returned %d results for %d cases" % (len(results), len(cases)))
 
     # 4. judge
-    ndrift, nnotes, nacts, nviol = 0, 0, 0, 0
+    ndrift, nnotes, nacts, nviol, repaired = 0, 0, 0, 0, 0
     drift_samples, note_samples, samples = [], {}, []
     distinct = set()
     per_layer = {}
@@ -390,6 +396,11 @@ def run(prop, tier, seed, replay=None):
     for c in sorted(cases, key=lambda c: c["id"]):
         r = results[c["id"]]
         viol, drift, notes = judge_case(c, preds, pacts, r)
+        if drift:
+            _, drift_p, _ = judge_case(c, preds_p, pacts_p, r)
+            if len(drift_p) < len(drift):
+                repaired += len(drift) - len(drift_p)
+                drift = drift_p
         per_layer[c["layer"]] = per_layer.get(c["layer"], 0) + 1
         nacts += len(r.get("acts", []))
         distinct.add(json.dumps([c["layer"], {k: c["x"].get(k) for k in DIMS + ["moved", "secret", "via", "note"]}, c["vec"].get("url")], sort_keys=True))
@@ -426,6 +437,9 @@ def run(prop, tier, seed, replay=None):
         rep.notes.append("DRIFT: " + d)
     for k in sorted(note_samples, key=lambda k: (k.startswith("https://"), k))[:7]:
         rep.notes.append("NOTE: " + note_samples[k])
+    if repaired:
+        rep.notes.append("NOTE: %d executed cases/actions behave like the PRESCRIPTIVE design rather than the descriptive one: a deviation constant of "
+                         "spec/cfg/Config.gen.cfg can be switched to TRUE (and its known_findings entry closed)" % repaired)
     if ndrift > max(5, (len(cases) + nacts) // 50) and not rep.violations:
         rep.inconclusive.append("%d of %d executed cases/actions deviate from the descriptive model's prediction (spec/code drift)" % (ndrift, len(cases) + nacts))
     if accepted_strict == 0 or refused_strict == 0 or accepted_nonstrict == 0:
@@ -436,13 +450,13 @@ def run(prop, tier, seed, replay=None):
                vectors_enumerated_by_tlc=len(starts), actions_enumerated_by_tlc=len(acts), cases_per_layer=per_layer, actions_executed=nacts,
                assembled_system_vectors=nsys, assembled_system_strict_accepted=accepted_strict, assembled_system_strict_refused=refused_strict,
                assembled_system_nonstrict_accepted=accepted_nonstrict, violations_observed=nviol, known_findings=sorted(rep.known),
-               drift=ndrift, notes=nnotes, models=models, samples=samples,
+               drift=ndrift, notes=nnotes, cases_matching_only_the_prescriptive_design=repaired, models=models, samples=samples,
                rule="TLC enumerates the complete product of Config.tla: %d configuration vectors (strictmode x 7 public URL classes x tls on/off/offload x "
                     "crypto.storage x storage.sql.connection x dummy validator x IRMA scheme x 3 didmethods sets, plus moved keys x secrets x channel over a "
                     "secure and an insecure base) and %d (strict, dummy, action) cases (dummy sign/verify, JSON-LD context class x allow-list, 13 outbound "
                     "entry points x 6 URL classes); invariants proven for the transcribed guards. Every engine's full local product runs on the real "
                     "engine's Configure (all concrete URL variants); the assembled cmd.CreateSystem is loaded through the real flag set / environment / yaml "
-                    "(channel per option seeded) for %s, started, probed (gRPC port, actions), shut down. distinct_nontrivial = distinct (layer, abstract "
+                    "(channel per option seeded; two concretisations per vector in the thorough tier) for %s, started, probed (gRPC port, actions), shut down. distinct_nontrivial = distinct (layer, abstract "
                     "vector, concrete URL) start-ups plus distinct (layer, strict, dummy, action, concrete URL) actions executed."
                     % (len(starts), len(acts), "ALL enumerated vectors (exhaustive)" if not quick else
                        "a pairwise cover of the engine options + every single-insecure-option vector + seeded samples (%d vectors)" % nsys))
